@@ -1,0 +1,17 @@
+//go:build verif && verif_fr
+
+package fr
+
+// Verification hooks (build tags verif+verif_fr only): expose the portable
+// generic arithmetic so that it can be compared with the assembly paths on amd64.
+
+func VerifMulGeneric(z, x, y *Element)       { _mulGeneric(z, x, y) }
+func VerifAddGeneric(z, x, y *Element)       { _addGeneric(z, x, y) }
+func VerifSubGeneric(z, x, y *Element)       { _subGeneric(z, x, y) }
+func VerifNegGeneric(z, x *Element)          { _negGeneric(z, x) }
+func VerifDoubleGeneric(z, x *Element)       { _doubleGeneric(z, x) }
+func VerifFromMontGeneric(z *Element)        { _fromMontGeneric(z) }
+func VerifReduceGeneric(z *Element)          { _reduceGeneric(z) }
+func VerifButterflyGeneric(a, b *Element)    { _butterflyGeneric(a, b) }
+func VerifMulByConstant(z *Element, c uint8) { mulByConstant(z, c) }
+func VerifSupportAdx() bool                  { return supportAdx }
